@@ -117,6 +117,14 @@ def _steps(x, rel):
     return rel * np.maximum(np.abs(x), 0.1 * sc)
 
 
+class FD(dict):
+    """{(of, wrt): (estimate, error bar)} plus .curv {(of, wrt): |second derivative| estimate} (from the one-sided mismatch)"""
+
+    def __init__(self):
+        super().__init__()
+        self.curv = {}
+
+
 def fd_jacobian(q, rel=1e-3, skip=None, max_cols=None, rng=None):
     """Richardson-extrapolated central differences of the component's own compute / solve_nonlinear.
     returns {(of, wrt): (estimate, error_bar)}; skip: {wrt_name: boolean mask of entries not to perturb} ->
@@ -143,7 +151,7 @@ def fd_jacobian(q, rel=1e-3, skip=None, max_cols=None, rng=None):
                 c.compute(I, O)
         return np.concatenate([O.raw(n).ravel() for n in onames]).copy()
 
-    res = {}
+    res = FD()
     for w in c._inputs:
         x = I.raw(w)
         h = _steps(x, rel)
@@ -157,15 +165,12 @@ def fd_jacobian(q, rel=1e-3, skip=None, max_cols=None, rng=None):
             keep = np.zeros(x.size, bool)
             keep[sel] = True
             mask |= ~keep
-        Js = []
-        side = []  # mismatch between forward and backward one-sided quotients (detects kinks that central differences hide)
         f0 = f()
-        for lev in range(3):
+
+        def level(lev, which):
             J = np.full((sum(osizes), x.size), np.nan)
             Sd = np.zeros((sum(osizes), x.size))
-            for i in cols:
-                if mask[i]:
-                    continue
+            for i in which:
                 hh = h.flat[i] / 2**lev
                 x0 = x.flat[i]
                 x.flat[i] = x0 + hh
@@ -175,24 +180,71 @@ def fd_jacobian(q, rel=1e-3, skip=None, max_cols=None, rng=None):
                 x.flat[i] = x0
                 J[:, i] = (fp - fm) / (2 * hh)
                 Sd[:, i] = np.abs((fp - f0) - (f0 - fm)) / hh
+            return J, Sd
+
+        active = [i for i in cols if not mask[i]]
+        Js, side = [], []  # side: mismatch between forward and backward one-sided quotients (detects kinks that central differences hide)
+        for lev in range(3):
+            J, Sd = level(lev, active)
             Js.append(J)
             side.append(Sd)
+
+        def extrapolate(a, b, c_):
+            R1 = (4 * b - a) / 3
+            R2 = (4 * c_ - b) / 3
+            return (16 * R2 - R1) / 15, np.abs(R2 - R1)
+
+        est, err = extrapolate(Js[0], Js[1], Js[2])
+        s0, s2 = side[0], side[2]
+        hlast = np.full(x.size, np.nan)
+        hlast[active] = h.ravel()[active] / 4.0
+        # a column whose extrapolation has not settled relative to the column's own size is outside the asymptotic range of the step
+        # (e.g. a stiffness entry perturbed by far more than its own magnitude): halve its steps twice more, up to three times; a column
+        # that never settles does not decide
+        big = np.nanmax(np.abs(est), initial=0.0)
+        lev = 3
+        for _round in range(3):
+            with np.errstate(invalid="ignore"):
+                colmax = np.nanmax(np.abs(est), axis=0, initial=0.0) if est.size else np.zeros(x.size)
+                colerr = np.nanmax(np.where(np.isfinite(err), err, 0.0), axis=0, initial=0.0) if est.size else np.zeros(x.size)
+            redo = [i for i in active if colmax[i] > 1e-9 * big and colerr[i] > 0.02 * colmax[i]]
+            if not redo:
+                break
+            Ja, Sa = level(lev, redo)
+            Jb, Sb = level(lev + 1, redo)
+            prev = Js[-1]
+            e2, r2 = extrapolate(prev[:, redo], Ja[:, redo], Jb[:, redo])
+            est[:, redo], err[:, redo] = e2, r2
+            s0[:, redo], s2[:, redo] = side[-1][:, redo], Sb[:, redo]
+            hlast[redo] = h.ravel()[redo] / 2 ** (lev + 1)
+            nxt = prev.copy()
+            nxt[:, redo] = Jb[:, redo]
+            Js.append(nxt)
+            sd = side[-1].copy()
+            sd[:, redo] = Sb[:, redo]
+            side.append(sd)
+            lev += 2
+        else:
+            with np.errstate(invalid="ignore"):
+                colmax = np.nanmax(np.abs(est), axis=0, initial=0.0)
+                colerr = np.nanmax(np.where(np.isfinite(err), err, 0.0), axis=0, initial=0.0)
+            bad = [i for i in active if colmax[i] > 1e-9 * big and colerr[i] > 0.02 * colmax[i]]
+            err[:, bad] = np.inf
         f()  # restore outputs at the nominal point
-        R1 = (4 * Js[1] - Js[0]) / 3
-        R2 = (4 * Js[2] - Js[1]) / 3
-        est = (16 * R2 - R1) / 15
-        err = np.abs(R2 - R1)
         # smooth: the one-sided mismatch is h*f'' and falls by 4 between h and h/4; at a kink it stays
-        kink = (side[2] > 0.5 * side[0]) & (side[2] > 1e-4 * np.maximum(np.nanmax(np.abs(est), initial=0.0), 1e-300))
+        kink = (s2 > 0.5 * s0) & (s2 > 1e-4 * np.maximum(np.nanmax(np.abs(est), initial=0.0), 1e-300))
         err = np.where(kink, np.inf, err)
+        with np.errstate(invalid="ignore", divide="ignore"):
+            curv = s2 / hlast[None, :]  # one-sided mismatch = |f''| * step
         r0 = 0
         for n, sz in zip(onames, osizes):
             res[(n, w)] = (est[r0:r0 + sz], err[r0:r0 + sz])
+            res.curv[(n, w)] = curv[r0:r0 + sz]
             r0 += sz
     return res
 
 
-def compare(o, fam, rep, fd, cls_name, tags=(), rtol=1e-6, nonsmooth_frac=0.02, loose=None, xscale=None, yscale=None):
+def compare(o, fam, rep, fd, cls_name, tags=(), rtol=1e-6, nonsmooth_frac=0.02, loose=None, xscale=None, yscale=None, fd_step=None):
     """decision rule: an entry disagrees only if |a-d| > rtol*S + 20*e_fd with S the block scale; entries whose FD estimates
     do not converge (e_fd > 1e-3*S) are counted as non-smooth and never decide."""
     nbad = 0
@@ -220,6 +272,11 @@ def compare(o, fam, rep, fd, cls_name, tags=(), rtol=1e-6, nonsmooth_frac=0.02, 
         good = valid & ~unreliable
         floor = 1e-12 * row.get(of, 0.0) / ((xscale or {}).get(wrt, 1.0) or 1.0)
         tol = rt * S + 20 * err + floor
+        if fd_step is not None and (of, wrt) in getattr(fd, "curv", {}):
+            # the component itself declares one-sided finite-difference partials with step fd_step: their truncation error is
+            # |f''| fd_step / 2 (allowed twice over), with |f''| measured here
+            cv = np.asarray(fd.curv[(of, wrt)]).reshape(est.shape)
+            tol = tol + np.where(np.isfinite(cv), cv, 0.0) * fd_step
         diff = np.abs(a - est)
         margin = float((diff[good] / tol[good]).max()) if good.any() else 0.0
         o._fam(fam, margin)
